@@ -456,6 +456,9 @@ int flatcc_builder_custom_reset(flatcc_builder_t *B, int set_defaults, int reduc
     B->ds_limit = 0;
     B->nest_count = 0;
     B->nest_id = 0;
+    /* User frames left open by an abandoned operation (e.g. a failed JSON parse). */
+    B->user_frame_offset = 0;
+    B->user_frame_end = 0;
     /* Needed for correct offset calculation. */
     B->ds = B->buffers[flatcc_builder_alloc_ds].iov_base;
     B->pl = B->buffers[flatcc_builder_alloc_pl].iov_base;
